@@ -93,13 +93,13 @@ theorem c12_segmentation (g : Cfg) (e : Env) (hl : g.readLimit = 0) (segs : List
 def cfgOfConn (c : WsH.ConnCfg) (isClient : Bool) (msgLimit readLimit maxFrame : Nat) : Cfg :=
   { enableCompression := c.enableCompression, writeCompression := c.writeCompression, msgLimit, readLimit, maxFrame, isClient }
 
-/-- C12 (handshake round trip): for every request the Dialer renders (any options, any well-formed challenge key) and
+/-- C12 (handshake round trip): for every request the Dialer renders (any options, any non-empty challenge key) and
     every Upgrader configuration that lets it pass the origin hook and adds no extension header of its own, the Upgrader
     answers 101, the Dialer accepts that response (status, Upgrade/Connection tokens, Sec-WebSocket-Accept, extension
     parameters), and BOTH ends derive the same compression setting: receive and send compression are on at both ends iff
     both sides enabled it. (Header keys are canonical as the HTTP parsers deliver them; SHA-1 is any function.) -/
 theorem c12_handshake_roundtrip (sha1 : WsH.Bytes → WsH.Bytes) (u : WsH.UCfg) (d : WsH.DCfg) (key : WsH.Bytes)
-    (hkey : WsH.validKey key = true) (ho : u.originOk = true)
+    (hkey : key.isEmpty = false) (ho : u.originOk = true)
     (hx : WsH.values u.respHeader (WsH.s "Sec-Websocket-Extensions") = []) (hne : WsH.NoExtHeader u) :
     ∃ hd srv cli, WsH.upgradeDecision sha1 u (WsH.dialRequest d key) = .ok (hd, srv) ∧
       WsH.dialerAccepts sha1 d key 101 (WsH.canonHeader hd) = .ok cli ∧
@@ -116,7 +116,7 @@ theorem c12_handshake_roundtrip (sha1 : WsH.Bytes → WsH.Bytes) (u : WsH.UCfg) 
     compression precondition of `c12_roundtrip` in both directions, so every message list written by either end after the
     handshake is delivered unchanged by the other (stated for the server as sender; the other direction is symmetric) -/
 theorem c12_handshake_then_roundtrip (sha1 : WsH.Bytes → WsH.Bytes) (u : WsH.UCfg) (d : WsH.DCfg) (key : WsH.Bytes)
-    (hkey : WsH.validKey key = true) (ho : u.originOk = true)
+    (hkey : key.isEmpty = false) (ho : u.originOk = true)
     (hx : WsH.values u.respHeader (WsH.s "Sec-Websocket-Extensions") = []) (hne : WsH.NoExtHeader u)
     (hd : WsH.Header) (srv cli : WsH.ConnCfg)
     (hup : WsH.upgradeDecision sha1 u (WsH.dialRequest d key) = .ok (hd, srv))
@@ -138,16 +138,17 @@ theorem c12_handshake_then_roundtrip (sha1 : WsH.Bytes → WsH.Bytes) (u : WsH.U
 
 /-- C12 (handshake, refusals): whenever the Upgrader answers 101 the request had method GET, an `upgrade` token in
     Connection, a `websocket` token in Upgrade, the token 13 in Sec-WebSocket-Version (a list containing 13 is tolerated),
-    a Sec-WebSocket-Key of 24 base64 characters standing for 16 bytes, passed the origin hook, and the caller did not
-    smuggle in an extension header: every request violating one of these MUSTs of RFC 6455 §4.2.1 is refused with a
-    4xx/5xx status and never sees 101. (Token lists are scanned by the model's `headerContains`; the harness compares that
+    a non-empty Sec-WebSocket-Key (leniency of the code: the key is NOT required to be the base64 form of 16 bytes, as
+    §4.2.1 asks; no clause of C12/C13/C15 depends on it), passed the origin hook, and the caller did not smuggle in an
+    extension header: every request violating one of the other MUSTs of RFC 6455 §4.2.1 is refused with a 4xx/5xx status
+    and never sees 101. (Token lists are scanned by the model's `headerContains`; the harness compares that
     with an independent split-and-trim reading on every generated request.) -/
 theorem c12_handshake_musts (sha1 : WsH.Bytes → WsH.Bytes) (u : WsH.UCfg) (r : WsH.Req) (hd : WsH.Header) (c : WsH.ConnCfg)
     (h : WsH.upgradeDecision sha1 u r = .ok (hd, c)) :
     r.method = WsH.s "GET" ∧ WsH.headerContains r.header (WsH.s "Connection") (WsH.s "upgrade") = true ∧
     WsH.headerContains r.header (WsH.s "Upgrade") (WsH.s "websocket") = true ∧
     WsH.headerContains r.header (WsH.s "Sec-Websocket-Version") (WsH.s "13") = true ∧
-    WsH.validKey (WsH.get r.header (WsH.s "Sec-Websocket-Key")) = true ∧ u.originOk = true := by
+    (WsH.get r.header (WsH.s "Sec-Websocket-Key")).isEmpty = false ∧ u.originOk = true := by
   unfold WsH.upgradeDecision at h
   cases hc : WsH.commCheck u r with
   | error e => rw [hc] at h; cases h
@@ -165,6 +166,11 @@ theorem c12_accept_key (sha1 : WsH.Bytes → WsH.Bytes) (key : WsH.Bytes) :
 
 /-- C12 (handshake tables, regenerated): the token-octet table of the code is the model's `isTokenOctet` -/
 theorem c12_token_table : Gen.tokenOctets = (List.range 256).map (fun n => WsH.isTokenOctet (UInt8.ofNat n)) := WsH.tokenOctets_table
+
+/-- the key leniency, as a fact about the model of the code: a malformed (but non-empty) key is answered with 101 -/
+example : (WsH.upgradeDecision (fun _ => []) { enableCompression := false, subprotocols := none, originOk := true, respHeader := [] }
+    (WsH.dialRequest { enableCompression := false, subprotocols := [], host := [] } (WsH.s "x"))).isOk = true := by
+  decide
 
 /-! non-vacuity of the handshake theorems: a conforming key, and a refused request -/
 example : WsH.validKey (WsH.s "dGhlIHNhbXBsZSBub25jZQ==") = true := by decide
